@@ -18,10 +18,19 @@ pub struct ParseCase {
 }
 
 pub fn decode_case(gt: &[u16], k: usize, its: &[Vec<u16>], p: &GenParams, lr: bool, sentences_only: bool) -> ParseCase {
+    decode_case_la(gt, k, its, p, lr, sentences_only, false)
+}
+
+/// `la_variants`: a quarter of the grammars get lookahead variants of a terminal text (only for
+/// checks that take the token sequence from the real scanner)
+pub fn decode_case_la(gt: &[u16], k: usize, its: &[Vec<u16>], p: &GenParams, lr: bool, sentences_only: bool, la_variants: bool) -> ParseCase {
     let mut t = chart::Tape { data: gt, pos: 0 };
     let mut grammar = gens::grammar(&mut t, p);
     if lr {
         grammar.gtype = Some(GType::LALR);
+    }
+    if la_variants && t.next(4) == 3 {
+        gens::lookahead_variants(&mut grammar, &mut t);
     }
     let ig = IGrammar::from(&grammar);
     let h = chart::min_heights(&ig);
@@ -35,6 +44,14 @@ pub fn decode_case(gt: &[u16], k: usize, its: &[Vec<u16>], p: &GenParams, lr: bo
 
 pub fn parse_case_strategy(p: GenParams, lr: bool, n_inputs: usize) -> BoxedStrategy<ParseCase> {
     parse_case_strategy_mode(p, lr, n_inputs, false)
+}
+
+/// as `parse_case_strategy`, with lookahead variants of terminals in a quarter of the grammars
+pub fn parse_case_strategy_la(p: GenParams, lr: bool, n_inputs: usize) -> BoxedStrategy<ParseCase> {
+    let ks = if lr { vec![1usize] } else { vec![1usize, 2, 3, 3, 5, 5, 10] };
+    (tape(40..140), proptest::sample::select(ks), proptest::collection::vec(tape(12..48), n_inputs..=n_inputs))
+        .prop_map(move |(gt, k, its)| decode_case_la(&gt, k, &its, &p, lr, false, true))
+        .boxed()
 }
 
 pub fn parse_case_strategy_mode(p: GenParams, lr: bool, n_inputs: usize, sentences_only: bool) -> BoxedStrategy<ParseCase> {
